@@ -17,6 +17,8 @@ type SV struct {
 	Typ  types.Type // nil for spec-only sorts
 	Pkg  *types.Package // set when the "value" is a package qualifier
 	Loc  *Loc           // captured variable of a closure: loaded from the state the clause is evaluated in
+	LocalObj bool       // a struct-typed LOCAL variable held as an object: its fields are part of
+	                    // the variable's value and are read in the current state, also under old()
 }
 
 type SpecCtx struct {
@@ -505,7 +507,7 @@ func (e *Enc) lookupLocal1(fr *Frame, name string, st *St) (SV, bool) {
 	}
 	t := a.Type().Underlying().(*types.Pointer).Elem()
 	if isObjStruct(t) || isArrayType(t) {
-		return SV{T: r.T, Sort: "Ref", Typ: a.Type()}, true
+		return SV{T: r.T, Sort: "Ref", Typ: a.Type(), LocalObj: isObjStruct(t) && !a.Heap}, true
 	}
 	return SV{T: e.loadLoc(r.Loc, st), Sort: e.sortOf(t), Typ: t}, true
 }
@@ -682,13 +684,18 @@ func (e *Enc) evalField(base SV, name string, ctx *SpecCtx) (SV, error) {
 		f := u.Field(idx)
 		if cur.Sort == "Ref" && (isPtr || isObjStruct(st)) {
 			// heap object
+			rst := ctx.cur
+			if cur.LocalObj && ctx.localSt != nil {
+				rst = ctx.localSt
+			}
 			if isObjStruct(f.Type()) {
-				cur = SV{T: e.subAddr(st, idx, cur.T), Sort: "Ref", Typ: types.NewPointer(f.Type())}
-				e.specLoadFact(cur.T, "Ref", ctx.cur)
+				lo := cur.LocalObj
+				cur = SV{T: e.subAddr(st, idx, cur.T), Sort: "Ref", Typ: types.NewPointer(f.Type()), LocalObj: lo}
+				e.specLoadFact(cur.T, "Ref", rst)
 			} else {
 				c := e.fieldComp(st, idx)
-				cur = SV{T: sel(e.get(ctx.cur, c), cur.T), Sort: e.sortOf(f.Type()), Typ: f.Type()}
-				e.specLoadFact(cur.T, cur.Sort, ctx.cur)
+				cur = SV{T: sel(e.get(rst, c), cur.T), Sort: e.sortOf(f.Type()), Typ: f.Type()}
+				e.specLoadFact(cur.T, cur.Sort, rst)
 			}
 		} else {
 			// struct value (datatype)
@@ -703,7 +710,7 @@ func (e *Enc) evalIndex(base, idx SV, ctx *SpecCtx) (SV, error) {
 	if base.Typ != nil {
 		switch t := base.Typ.Underlying().(type) {
 		case *types.Map:
-			idx = e.adapt(idx, e.sortOf(t.Key()))
+			idx = e.adaptKey(idx, t.Key(), ctx.cur)
 			val, _ := e.mapLookup(ctx.cur, t, base.T, idx.T)
 			e.specLoadFact(val, e.sortOf(t.Elem()), ctx.cur)
 			return SV{T: val, Sort: e.sortOf(t.Elem()), Typ: t.Elem()}, nil
@@ -722,6 +729,18 @@ func (e *Enc) evalIndex(base, idx SV, ctx *SpecCtx) (SV, error) {
 		return SV{T: sel(base.T, idx.T), Sort: vs}, nil
 	}
 	return SV{}, fmt.Errorf("cannot index %s", base.Sort)
+}
+
+// adaptKey: like adapt, and a struct-typed variable (held as an object) used as a map key of
+// struct type is read as the struct value.
+func (e *Enc) adaptKey(v SV, kt types.Type, st *St) SV {
+	want := e.sortOf(kt)
+	if v.Sort == "Ref" && want != "Ref" {
+		if _, ok := kt.Underlying().(*types.Struct); ok {
+			return SV{T: e.loadStruct(v.T, kt, st), Sort: want, Typ: kt}
+		}
+	}
+	return e.adapt(v, want)
 }
 
 func (e *Enc) adapt(v SV, want string) SV {
@@ -773,7 +792,7 @@ func (e *Enc) evalBin(n *SBin, ctx *SpecCtx) (SV, error) {
 		}
 		if m.Typ != nil {
 			if mt, ok := m.Typ.Underlying().(*types.Map); ok {
-				k = e.adapt(k, e.sortOf(mt.Key()))
+				k = e.adaptKey(k, mt.Key(), ctx.cur)
 				_, ok := e.mapLookup(ctx.cur, mt, m.T, k.T)
 				return SV{T: ok, Sort: "Bool"}, nil
 			}
@@ -917,7 +936,7 @@ func (e *Enc) evalCall(n *SCall, ctx *SpecCtx) (SV, error) {
 			if !ok {
 				return SV{}, fmt.Errorf("has: not a map")
 			}
-			k = e.adapt(k, e.sortOf(mt.Key()))
+			k = e.adaptKey(k, mt.Key(), ctx.cur)
 			val, ok2 := e.mapLookup(ctx.cur, mt, cur.T, k.T)
 			conj = append(conj, ok2)
 			cur = SV{T: val, Sort: e.sortOf(mt.Elem()), Typ: mt.Elem()}
@@ -1206,7 +1225,7 @@ func (e *Enc) evalCall(n *SCall, ctx *SpecCtx) (SV, error) {
 			return SV{}, fmt.Errorf("iter() outside a loop step clause")
 		}
 		return e.evalSpec(n.Args[0], ctx.withState(ctx.iter))
-	case "received", "lastrecv":
+	case "received", "lastrecv", "sent", "lastsent":
 		// received(x.f): number of values received through channel field f of x;
 		// lastrecv(x.f): the last of them
 		sf, ok := n.Args[0].(*SField)
@@ -1236,12 +1255,14 @@ func (e *Enc) evalCall(n *SCall, ctx *SpecCtx) (SV, error) {
 			return SV{}, fmt.Errorf("%s: field %s is not a channel", n.Fn, sf.Name)
 		}
 		key := e.structName(stT) + "_" + sanitize(sf.Name)
-		if n.Fn == "received" {
-			c := e.comp("chrecv_"+key, "(Array Ref Int)", "ghost", "G:recv")
+		if n.Fn == "received" || n.Fn == "sent" {
+			pfx := map[string]string{"received": "chrecv_", "sent": "chsent_"}[n.Fn]
+			c := e.comp(pfx+key, "(Array Ref Int)", "ghost", "G:recv")
 			return SV{T: sel(e.get(ctx.cur, c), base.T), Sort: "Int"}, nil
 		}
 		srt := e.sortOf(ch.Elem())
-		c := e.comp("chlast_"+key, "(Array Ref "+srt+")", "ghost", "G:recv")
+		pfx := map[string]string{"lastrecv": "chlast_", "lastsent": "chlastsent_"}[n.Fn]
+		c := e.comp(pfx+key, "(Array Ref "+srt+")", "ghost", "G:recv")
 		return SV{T: sel(e.get(ctx.cur, c), base.T), Sort: srt, Typ: ch.Elem()}, nil
 	case "lin":
 		// evaluate at the linearisation point (last lock acquisition / wait return)
